@@ -92,8 +92,22 @@ HasReachableCycle(c) ==
   LET R == Reach(c, SeqSet(c.o))
       sub == [c EXCEPT !.g = [x \in R |-> c.g[x]]]
   IN  Layering(sub, {}) # R
+(* the same on netlists of hundreds of gates: the gate map copied into a function first (hashed lookup) *)
+RECURSIVE ReachF(_, _, _)
+ReachF(G, front, seen) ==
+  IF front = {} THEN seen
+  ELSE LET nxt == ((UNION {SeqSet(G[l].o) : l \in front}) \cap DOMAIN G) \ seen IN ReachF(G, nxt, seen \cup nxt)
+RECURSIVE LayerF(_, _, _)
+LayerF(G, R, done) ==
+  LET ready == {l \in R \ done : (SeqSet(G[l].o) \cap R) \subseteq done}
+  IN  IF ready = {} THEN done ELSE LayerF(G, R, done \cup ready)
+HasReachableCycleF(c) ==
+  LET G == AsFcn(c.g)
+      start == SeqSet(c.o) \cap DOMAIN G
+      R == ReachF(G, start, start)
+  IN  LayerF(G, R, {}) # R
 C20CycleFails(c) ==
   FailSet(<< <<IF c.raised THEN "cycle-check-raised-without-reachable-cycle"
                            ELSE "cycle-check-missed-a-reachable-cycle",
-               c.raised = HasReachableCycle(c.c)>> >>)
+               c.raised = (IF Cardinality(DOMAIN c.c.g) > 60 THEN HasReachableCycleF(c.c) ELSE HasReachableCycle(c.c))>> >>)
 =============================================================================
